@@ -135,6 +135,8 @@ def corpus_check(ctx, prop, names, cfgs, nrand, budget_events, clauses=None, nfa
     progs.update(extra_progs or {})
     runs = []
     nev = 0
+    per_name = max(1, budget_events // max(1, len(names)))
+    used = {}
     for name in names:
         prog = progs[name]
         args = [ctx.seed + 11] if name != 'random_ops' else [ctx.seed * 7 + k for k in range(3 if ctx.quick else 10)]
@@ -155,7 +157,8 @@ def corpus_check(ctx, prop, names, cfgs, nrand, budget_events, clauses=None, nfa
                                 'steps': r['steps']})
                             continue
                         outs.setdefault(repr(r['results']), sname)
-                        if nev < budget_events and len(r['events']) < 30000:
+                        if used.get(name, 0) < per_name and len(r['events']) < 30000:
+                            used[name] = used.get(name, 0) + len(r['events'])
                             r.pop('world')
                             r['tag'] = (name, arg, m, t, no_prss, sname)
                             runs.append(r)
